@@ -13,7 +13,7 @@
 import UnicLocale.Lemmas.ExtZones
 
 namespace UL.Props.C03
-open UL
+open UL UL.Ez
 
 /-! ### (a) MUST ACCEPT -/
 
